@@ -291,7 +291,11 @@ func (c *cluster) retire(rn *repNode) {
 	rn.inc++
 	nd := filepath.Join(rn.base, fmt.Sprintf("inc-%d", rn.inc))
 	if err := os.Rename(rn.dir, nd); err != nil {
-		c.res.Infra = "rename replica dir: " + err.Error()
+		if os.IsNotExist(err) {
+			os.MkdirAll(nd, 0700) // the volume was deleted through the API (DeleteAll removes the directory)
+		} else {
+			c.res.Infra = "rename replica dir: " + err.Error()
+		}
 	}
 	rn.dir = nd
 }
